@@ -1,0 +1,75 @@
+//go:build verif
+
+package rib
+
+import (
+	"sync/atomic"
+
+	spb "github.com/openconfig/gribi/v1/proto/service"
+)
+
+// This file is compiled only with the "verif" build tag. It exposes read-only
+// snapshots of internal RIB state, and yield points, to external runtime monitors.
+
+// VerifPendingOp describes one operation held by the RIB awaiting resolution.
+type VerifPendingOp struct {
+	ID uint64
+	NI string
+	Op *spb.AFTOperation
+}
+
+// VerifPendingOps returns a snapshot of the held (pending) operations.
+func (r *RIB) VerifPendingOps() []VerifPendingOp {
+	r.pendMu.RLock()
+	defer r.pendMu.RUnlock()
+	out := make([]VerifPendingOp, 0, len(r.pendingEntries))
+	for id, e := range r.pendingEntries {
+		out = append(out, VerifPendingOp{ID: id, NI: e.ni, Op: e.op})
+	}
+	return out
+}
+
+// VerifRefCount is a snapshot of the reference counters of one network instance.
+type VerifRefCount struct {
+	NextHop      map[uint64]uint64
+	NextHopGroup map[uint64]uint64
+}
+
+// VerifRefCounts returns a snapshot of the per-network-instance reference counters.
+func (r *RIB) VerifRefCounts() map[string]VerifRefCount {
+	r.nrMu.RLock()
+	defer r.nrMu.RUnlock()
+	out := map[string]VerifRefCount{}
+	for name, niR := range r.niRIB {
+		rc := VerifRefCount{NextHop: map[uint64]uint64{}, NextHopGroup: map[uint64]uint64{}}
+		niR.refCounts.mu.RLock()
+		for k, v := range niR.refCounts.NextHop {
+			rc.NextHop[k] = v
+		}
+		for k, v := range niR.refCounts.NextHopGroup {
+			rc.NextHopGroup[k] = v
+		}
+		niR.refCounts.mu.RUnlock()
+		out[name] = rc
+	}
+	return out
+}
+
+var verifPointFn atomic.Pointer[func(string)]
+
+// VerifSetPoint registers fn to be called at each named yield point. A nil fn
+// removes the registration.
+func VerifSetPoint(fn func(string)) {
+	if fn == nil {
+		verifPointFn.Store(nil)
+		return
+	}
+	verifPointFn.Store(&fn)
+}
+
+// verifPoint is a named yield point placed between critical sections.
+func verifPoint(name string) {
+	if f := verifPointFn.Load(); f != nil {
+		(*f)(name)
+	}
+}
